@@ -618,19 +618,20 @@ func drawStream() *hx.Stream {
 			}
 		}
 	}
-	// very large contents: more than 65535 lines / columns (uint16 counters)
-	if cfg.Thorough() {
-		drawCase(s, &wspec{Kind: "text", Soft: false, Content: strings.Repeat("a\n", 65540)}, 65535, 65535, false, "huge")
-		drawCase(s, &wspec{Kind: "text", Soft: true, Content: strings.Repeat("b\n", 65540)}, 3, 65535, false, "huge")
-	}
+	// very large contents: more than 65535 lines / columns (uint16 counters).  The lines between
+	// the first and the last two are empty so that the list-based model stays cheap.
 	{
+		many := "x" + strings.Repeat("\n", 65536) + "y\nz"
+		drawCase(s, &wspec{Kind: "text", Soft: false, Content: many}, 65535, 65535, false, "huge")
+		drawCase(s, &wspec{Kind: "text", Soft: true, Content: many}, 3, 65535, false, "huge")
+		drawCase(s, &wspec{Kind: "rich", Soft: false, Segs: []string{many}}, 7, 65535, false, "huge")
+		drawCase(s, &wspec{Kind: "text", Soft: false, Content: many}, 65535, 65534, false, "huge")
 		drawCase(s, &wspec{Kind: "rich", Soft: false, Segs: []string{strings.Repeat("c", 65540)}}, 65535, 65535, false, "huge")
 		drawCase(s, &wspec{Kind: "text", Soft: false, Content: strings.Repeat("a\n", 300)}, 65535, 256, false, "huge")
 	}
 	n := 900
 	if cfg.Thorough() {
-		n = 30000
-		limit = 300000
+		n = 18000
 	}
 	for i := 0; i < n; i++ {
 		w := genWidget(cfg.Rand.Intn(3))
